@@ -279,7 +279,7 @@ func checkC14(c *Ctx) {
 	c.Assume("mutants never contain the words error/empty (known finding F8: gocc's scanner treats them as token identifiers); the unmutated base files must be judged well-formed (self-check of the judge)")
 	rng := rand.New(rand.NewSource(c.Seed))
 	var all []c14Case
-	nb := c.pick(12, 80)
+	nb := c.pick(12, 400)
 	per := c.pick(30, 60)
 	for i := 0; i < nb; i++ {
 		var text string
